@@ -43,7 +43,7 @@ main(void)
 	unsigned char x[LEN], y[LEN];
 	int eq = 1, i;
 #ifdef NATIVE_REPLAY
-	memset(c, 0, sizeof *c);
+	NATIVE_FILL(c, sizeof *c);
 #endif
 	/* regions written through their fields (byte-level writes into the context cost minutes) */
 #if PAIR == 0
